@@ -303,6 +303,7 @@ func driver(args []string) int {
 	tot.Nontrivial = int64(len(distinct))
 
 	laneB := map[string]any(nil)
+	laneBUnreproduced := false
 	exit := 0
 	if f.prop == "C19" && f.laneB != "" {
 		var lbViol []*Violation
@@ -310,6 +311,9 @@ func driver(args []string) int {
 		laneB, lbViol, code = runLaneB(f, scratch)
 		if code == 2 {
 			return 2
+		}
+		if code == 3 {
+			laneBUnreproduced = true
 		}
 		tot.Violations = append(tot.Violations, lbViol...)
 	}
@@ -374,6 +378,10 @@ func driver(args []string) int {
 	}
 	for _, e := range tot.Errors {
 		fmt.Println("note:", e)
+	}
+	if laneBUnreproduced && exit == 0 {
+		fmt.Println("ERROR: a lane-B race report did not reproduce and nothing else was confirmed: no verdict")
+		exit = 2
 	}
 	if failedWorkers > 0 && exit == 0 {
 		fmt.Printf("ERROR: %d worker(s) died and no violation was confirmed: no verdict\n", failedWorkers)
